@@ -6,42 +6,41 @@ import Miden.Lemmas.HonestAir2
 namespace Miden.C03
 open Miden Miden.Air Miden.Vm
 
+attribute [local irreducible] finv fpow fpowAux
+
+set_option maxHeartbeats 1000000 in
 theorem honest_inv (vm vm' : Vm) (hl : 16 ≤ vm.stack.length) (hc : Canon vm)
     (h : vm.step .inv = .ok vm') : HonestHolds vm vm' .inv := by
-  intro b1 b1' h0 h0' opn hlpn hh hb
-  obtain ⟨x0, x1, x2, x3, x4, x5, x6, x7, x8, x9, x10, x11, x12, x13, x14, x15, t, hs⟩ := split16 _ hl
-  have hx0 : x0 < P := hc x0 (by rw [hs]; simp)
-  simp only [step, stepCore, hs] at h
-  split at h
-  · cases h
+  honest_intro
+  have hx0 : x0 < P := by apply hc; rw [hs]; simp
+  split at hcore
+  · cases hcore
   · rename_i hne0
-    cases h
+    cases hcore
     have hne : (x0 : FP) ≠ 0 := cast_ne_zero x0 hx0 hne0
     rcases t with _ | ⟨t0, t⟩ <;>
       honest_simp_with [cast_finv _ hne, mul_inv_cancel₀ hne] <;> honest_close
 
+set_option maxHeartbeats 1000000 in
 theorem honest_eqz (vm vm' : Vm) (hl : 16 ≤ vm.stack.length) (hc : Canon vm)
     (h : vm.step .eqz = .ok vm') : HonestHolds vm vm' .eqz := by
-  intro b1 b1' h0 h0' opn hlpn hh hb
-  obtain ⟨x0, x1, x2, x3, x4, x5, x6, x7, x8, x9, x10, x11, x12, x13, x14, x15, t, hs⟩ := split16 _ hl
-  have hx0 : x0 < P := hc x0 (by rw [hs]; simp)
-  simp only [step, stepCore, hs] at h
-  cases h
+  honest_intro
+  have hx0 : x0 < P := by apply hc; rw [hs]; simp
+  cases hcore
   by_cases e : x0 = 0
   · subst e
     rcases t with _ | ⟨t0, t⟩ <;> honest_simp <;> honest_close
   · have hne : (x0 : FP) ≠ 0 := cast_ne_zero x0 hx0 e
     rcases t with _ | ⟨t0, t⟩ <;>
-      honest_simp_with [e, cast_finv _ hne, mul_inv_cancel₀ hne] <;> honest_close
+      honest_simp_with [e, hne, cast_finv _ hne, mul_inv_cancel₀ hne] <;> honest_close
 
+set_option maxHeartbeats 1000000 in
 theorem honest_eq (vm vm' : Vm) (hl : 16 ≤ vm.stack.length) (hc : Canon vm)
     (h : vm.step .eq = .ok vm') : HonestHolds vm vm' .eq := by
-  intro b1 b1' h0 h0' opn hlpn hh hb
-  obtain ⟨x0, x1, x2, x3, x4, x5, x6, x7, x8, x9, x10, x11, x12, x13, x14, x15, t, hs⟩ := split16 _ hl
-  have hx0 : x0 < P := hc x0 (by rw [hs]; simp)
-  have hx1 : x1 < P := hc x1 (by rw [hs]; simp)
-  simp only [step, stepCore, hs] at h
-  cases h
+  honest_intro
+  have hx0 : x0 < P := by apply hc; rw [hs]; simp
+  have hx1 : x1 < P := by apply hc; rw [hs]; simp
+  cases hcore
   by_cases e : x0 = x1
   · subst e
     rcases t with _ | ⟨t0, t⟩ <;> honest_simp <;> honest_close
@@ -53,16 +52,16 @@ theorem honest_eq (vm vm' : Vm) (hl : 16 ≤ vm.stack.length) (hc : Canon vm)
     have hfi : ((finv (fsub x0 x1) : Nat) : FP) = ((x0 : FP) - (x1 : FP))⁻¹ := by
       rw [cast_finv _ hne, cast_fsub]
     rcases t with _ | ⟨t0, t⟩ <;>
-      honest_simp_with [e, e', hfi, mul_inv_cancel₀ hne'] <;> honest_close
+      honest_simp_with [e, e', hfi, hne', mul_inv_cancel₀ hne'] <;> honest_close
 
+set_option maxHeartbeats 1000000 in
 theorem honest_expacc (vm vm' : Vm) (hl : 16 ≤ vm.stack.length)
     (h : vm.step .expacc = .ok vm') : HonestHolds vm vm' .expacc := by
-  intro b1 b1' h0 h0' opn hlpn hh hb
-  obtain ⟨x0, x1, x2, x3, x4, x5, x6, x7, x8, x9, x10, x11, x12, x13, x14, x15, t, hs⟩ := split16 _ hl
-  simp only [step, stepCore, hs] at h
-  cases h
+  honest_intro
+  cases hcore
   have key : (x3 : FP) = ((x3 / 2 : Nat) : FP) * 2 + ((x3 % 2 : Nat) : FP) := by
-    exact_mod_cast (Nat.div_add_mod' x3 2).symm
+    have h2 : x3 = x3 / 2 * 2 + x3 % 2 := (Nat.div_add_mod' x3 2).symm
+    exact_mod_cast congrArg (Nat.cast : ℕ → FP) h2
   rcases Nat.mod_two_eq_zero_or_one x3 with hm | hm <;> rw [hm] at key <;>
     rcases t with _ | ⟨t0, t⟩ <;> honest_simp_with [hm] <;>
     (first
